@@ -508,7 +508,38 @@ class Session:
             self.fire("boundary:jit-id")
         return tr
 
-    def decoy(self, rep, perts, key_n):
+    def decoy_sibling(self, rep, i, key_n):
+        """cache:decoy for closure roots: a second partial application of the same
+        function object (other stored arguments) is used through the same GFI
+        path and must itself behave like the function with ITS stored arguments."""
+        import copy
+        import random
+
+        from sim.texpr import sample_value
+
+        r = random.Random(key_n)
+        node2 = copy.deepcopy(self.node)
+        ins_inner, _ = ref.sig(node2["inner"])
+        node2["stored"] = [sample_value(r, t) for t in ins_inner[: len(node2["stored"])]]
+        if node2.get("kwvals"):
+            node2["kwvals"] = {n: sample_value(r, t) for n, t in node2["inner"]["kwp"].items()}
+        args = __import__("sim.gen", fromlist=["x"]).sample_args(r, self.node)
+        try:
+            gf2 = build.sibling(self.gf, node2)
+            tr2 = gf2.simulate(make_key(key_n), self.jargs(args, "py"))
+            x2 = self.observe(tr2)
+            lp2, rv2, _ = ref.density(node2, self.ref_args(args), x2)
+        except Exception as e:
+            self.viol("C32.sibling-crash", {"C32"}, i, rep, "a second partial application of the same function (stored %s) raised %s: %s" % (node2["stored"], type(e).__name__, str(e)[:200]), "crash")
+            return
+        self.fire("cache:decoy")
+        self.probe("closure:sibling")
+        if np.isfinite(lp2) and not obs.close(tr2.get_score(), lp2):
+            self.viol("C32.sibling-closure", {"C32"}, i, rep, "second partial application of the same function with stored %s kw %s: score %s vs %.6f with its own stored arguments (the first application stores %s)" % (node2["stored"], node2.get("kwvals"), np.asarray(tr2.get_score()), lp2, self.node["stored"]))
+
+    def decoy(self, rep, perts, key_n, i=0):
+        if "cache:decoy" in perts and self.node["k"] in ("closure", "partial") and id(self.gf) in build.INNER_OF:
+            self.decoy_sibling(rep, i, key_n)
         if "cache:decoy" in perts and len(self.gfs) > 1:
             try:
                 dn = self.nodes[1]
@@ -527,7 +558,7 @@ class Session:
         enc = "arr" if "enc:arr" in perts else "py"
         if enc == "arr":
             self.fire("enc:arr")
-        self.decoy(rep, perts, st.get("key", 0))
+        self.decoy(rep, perts, st.get("key", 0), i)
         if op in ("simulate", "importance"):
             return self.step_create(rep, i, st, perts, enc)
         if op in ("update", "regenerate", "index_edit", "static_edit", "empty_edit"):
@@ -570,6 +601,25 @@ class Session:
                         self.viol("C38.propose", {"C38"}, i, rep, "propose differs from simulate under the same key: %s" % (d[:2],))
                 except Exception as e:
                     self.viol("C38.propose-crash", {"C38"}, i, rep, "propose raised %s: %s" % (type(e).__name__, str(e)[:200]), "crash")
+            # C32: calling a closure (its call syntax means "simulate, give me the
+            # return value") with the keyword arguments supplied at call time
+            # instead of stored ones merges them the same way
+            if not perts and rec is not None and "C32" in self.pp and self.node["k"] == "closure" and id(gf) in build.INNER_OF:
+                try:
+                    inner, _ = build.INNER_OF[id(gf)]
+                    ins_inner, _ = ref.sig(self.node["inner"])
+                    stored = [build.to_jax(v, t) for v, t in zip(self.node["stored"], ins_inner)]
+                    kw = {}
+                    if self.node.get("kwvals"):
+                        kwp = self.node["inner"]["kwp"]
+                        kw = {n: build.to_jax(self.node["kwvals"][n], kwp[n]) for n in sorted(kwp)}
+                    rv2 = inner(*stored)(make_key(st["key"]), *jargs, **kw)
+                    self.probe("closure:call-time-kwargs" if kw else "closure:call")
+                    d = cmp_retvals(rv2, tr.get_retval(), exact=True)
+                    if d:
+                        self.viol("C32.call", {"C32"}, i, rep, "closure(key, *rest, **kw) returned something else than simulate of the closure that stores kw %s: %s" % (sorted(kw), d[:2]))
+                except Exception as e:
+                    self.viol("C32.call-crash", {"C32"}, i, rep, "closure(key, *rest, **kw) raised %s: %s" % (type(e).__name__, str(e)[:200]), "crash")
         else:
             cons = st["constraint"]
             wrap, falses = self.mask_encoding(perts, cons, st["key"])
